@@ -14,8 +14,9 @@ import (
 const stream = 0x6372616e64 // "crand": the code seed of this stream
 
 var (
-	gen uint64
-	idx uint64
+	gen      uint64
+	idx      uint64
+	plainIdx uint64 // reads outside a run (package initialisation of the tree under test)
 	// Reads counts calls of the current run (probe).
 	Reads int64
 )
@@ -27,10 +28,17 @@ var Reader io.Reader = reader{}
 
 func (reader) Read(b []byte) (int, error) { return Read(b) }
 
+// ResetPlain is called before the packages under test are re-initialised for a run: what their
+// initialisation reads from the entropy source is then the same for every run, whatever the
+// process ran before.
+func ResetPlain() { plainIdx = 0 }
+
 // Read fills b.
 func Read(b []byte) (int, error) {
 	mode, salt := vrand.EUniform, uint64(0)
+	k := &plainIdx
 	if sim := sched.Cur; sim != nil && !sim.Aborted() {
+		k = &idx
 		if gen != sim.Gen {
 			gen, idx = sim.Gen, 0
 		}
@@ -39,8 +47,8 @@ func Read(b []byte) (int, error) {
 		Reads++
 	}
 	for i := 0; i < len(b); i += 8 {
-		w := vrand.Word(mode, salt, stream, idx)
-		idx++
+		w := vrand.Word(mode, salt, stream, *k)
+		*k++
 		for j := 0; j < 8 && i+j < len(b); j++ {
 			b[i+j] = byte(w >> (8 * uint(j)))
 		}
